@@ -217,7 +217,11 @@ def run_check(prop: str, tier: str, seed: int) -> int:
     from build import build as bld
 
     mod = importlib.import_module(f"props.{prop.lower()}")
+    # thorough tier of the properties whose anchors list sanitizer reports: run the generated cases against an
+    # AddressSanitizer build of the tree (a report aborts the worker -> engine_crash violation with the report text)
     variant = "plain"
+    if tier == "thorough" and getattr(mod, "ASAN_THOROUGH", False) and os.environ.get("VERIF_ASAN", "1") != "0":
+        variant = "asan"
     try:
         info = bld.ensure(variant, verbose=True)
     except SystemExit as e:
